@@ -450,6 +450,8 @@ def _helper_dist(ctx, rid, repo, backend_cls, helper_name, prim, roles, dist_val
             prim_params = [p_ for p_ in A.params_of(backend_cls.methods[prim].node) if p_ != "self"]
             region_ = {n_: Fraction(k_ + 2, 3) for k_, n_ in enumerate(names_)}
             it_ = Interp({"value": Poly.atom("value"), "norm": Obj("norm"), "poisson": Obj("poissonlib"), **_module_constants(h.module)}, {r_: Poly.atom(r_) for r_ in roles[1:]}, region_, methods={k_: v_.node for k_, v_ in h.methods.items()}, cls_name=h.name, externals=_dist_ext())
+            if "__init__" in h.methods:  # attributes the constructor derives from the parameters (a cached logarithm ...) exist when log_prob runs
+                it_.call_function(h.methods["__init__"].node, [Poly.atom(r_) for r_ in roles[1:]], {}, bind_self=True)
             got_ = to_poly(it_.run(A.strip_docstring(lp.node.body)))
             itp_ = Interp({p_: Poly.atom(n_) for p_, n_ in zip(prim_params, names_)} | {"norm": Obj("norm"), "poisson": Obj("poissonlib"), **_module_constants(backend_cls.module)}, {"precision": "64b", "name": backend_cls.name.replace("_backend", ""), "dtypemap": {"float": PyFunc(lambda a, k: to_poly(a[0]), "float64"), "int": PyFunc(lambda a, k: to_poly(a[0]), "int64"), "bool": PyFunc(lambda a, k: a[0], "bool")}}, region_, methods={k_: v_.node for k_, v_ in backend_cls.methods.items()}, cls_name=backend_cls.name, externals=_dist_ext())
             want_ = to_poly(itp_.run(A.strip_docstring(backend_cls.methods[prim].node.body)))
